@@ -2248,3 +2248,65 @@ _old3_register_all = register_all
 def register_all(M):  # noqa: F811
     _old3_register_all(M)
     register_batch4(M)
+
+
+class JoinObj:
+    __slots__ = ('result', 'panic', 'tid', 'done')
+
+    def __init__(self):
+        self.result = None
+        self.panic = None
+        self.tid = None
+        self.done = False
+
+
+def register_batch5(M):
+    reg = M.reg
+    P = M.p
+
+    def targs(ext):
+        return [a['ty'] for a in ext['args'] if 'ty' in a]
+
+    @reg('std::thread::spawn')
+    def thread_spawn(I, ext, a):
+        ft = P.tys[targs(ext)[0]]
+        sc = I.model_state.get('sched')
+        if sc is not None:
+            return sc.spawn(I, ft, a[0])
+        # sequential semantics: the new thread runs to completion at the spawn point (one legal schedule)
+        j = JoinObj()
+        n = I.model_state.get('next_tid', 1)
+        I.model_state['next_tid'] = n + 1
+        j.tid = n
+        old = I.thread_id
+        I.thread_id = n
+        try:
+            j.result = I.call_fn(ft['call_once'], [a[0], Agg([])], RUST_CALL)
+        except RustPanic as e:
+            j.panic = e
+        finally:
+            I.thread_id = old
+        j.done = True
+        return j
+
+    @reg('std::thread::JoinHandle::<T>::join')
+    def thread_join(I, ext, a):
+        j = a[0]
+        sc = I.model_state.get('sched')
+        if sc is not None:
+            sc.join(I, j)
+        if j.panic is not None:
+            return err(OpaqueObj('panic-payload', j.panic.msg))
+        return ok(j.result)
+
+    @reg('std::thread::current', 'std::thread::Thread::id')
+    def thread_current(I, ext, a):
+        return OpaqueObj('thread', I.thread_id)
+
+
+_old4_register_all = register_all
+
+
+def register_all(M):  # noqa: F811
+    _old4_register_all(M)
+    register_batch5(M)
